@@ -271,7 +271,8 @@ def plan(spec) -> Plan:
     def pick(idxs, limit=4):
         if not ref.nodes:
             return []
-        return _dedupe([ref.nodes[int(i) % len(ref.nodes)] for i in list(idxs)[:limit]])
+        idxs = idxs if isinstance(idxs, list) else []
+        return _dedupe([ref.nodes[int(i) % len(ref.nodes)] for i in idxs[:limit] if isinstance(i, int)])
 
     def build_sub(w, maxn):
         w = w if isinstance(w, dict) else {}
